@@ -1,8 +1,16 @@
-(* C08 - one writer + concurrent HTTP readers: no data race, atomic views.
+(* C08 - one writer + concurrent HTTP readers: no data race, atomic views (generic lemma + table check).
    Only the property theorems (each closed by [exact]) and [Print Assumptions]; the trace model and
    the definition of a race are in Model/Lockset.v, the generic proof in Proofs/LocksetSound.v, the
    access table in Generated/LocksetTable.v (regenerated from /repo on every run), the recorded
    racing pairs in Model/LocksetFindings.v, the atomic-view model in Model/LocksetAtomic.v.
+   Atomic / monotone views: a GENERIC lemma (any state type S, any response type R, any generator
+   [gen] called under the mutex yields a view of one state; monotone relations are inherited) plus
+   the table check that every playlist generator runs under the muxer mutex
+   ([c08_generate_under_mutex], the only part tied to the code).  [c08_atomic_view],
+   [c08_monotone_view] and the two relation theorems follow from the definition of [run] in
+   Model/LocksetAtomic.v; S, R, gen stay universally quantified: they are NOT instantiated with the
+   muxer model (gen_media_playlist) or a C03-C05 invariant - the single-playlist invariants of each
+   response are checked by the harness oracle.
    Panic freedom of handle/mux_write is a statement about the sequential muxer model (M3) and is
    exercised here only by the stress harness (see the tie). *)
 From Coq Require Import List String Bool Arith Sorting.Sorted.
